@@ -40,11 +40,11 @@ Definition rbind {A B} (r : res A) (f : A -> res B) : res B :=
 Definition rmap {A B} (f : A -> B) (r : res A) : res B :=
   match r with Ok a => Ok (f a) | Err e => Err e | Panic s => Panic s end.
 
-(* `?` on a nom result inside a function returning errors::Result: every nom error becomes Nmea *)
+(* `?` on a nom result inside a function returning errors::Result: every nom error becomes
+   Error::Nmea (the From<nom::Err<..>> impls of errors.rs never build a Checksum error) *)
 Definition to_nmea {A} (r : res A) : res A :=
   match r with
   | Ok a => Ok a
-  | Err (EChecksum e f) => Err (EChecksum e f)
   | Err _ => Err ENmea
   | Panic s => Panic s
   end.
